@@ -48,6 +48,7 @@ fn filters() -> Vec<FilterSpec> {
 
 /// every stateless frame entry point (filters, hashers, format sniffers)
 pub fn stateless_frame_entry_points(f: &[u8]) -> Result<(), String> {
+    let _g = crate::engine::case_guard("frame", f);
     catch(|| {
         for spec in filters() {
             let _ = huginn_net_tcp::raw_filter::apply(f, &c14::tcp_cfg(&spec));
@@ -76,6 +77,7 @@ impl<'a> Instances<'a> {
     }
     /// feed a frame to all four analyzers; Err = panic message
     pub fn feed_all(&mut self, f: &[u8], at: u64) -> Result<(), String> {
+        let _g = crate::engine::case_guard("frame", f);
         let p = Packet { conn: 0, from_client: true, frame: f.to_vec(), at, tsval: None, payload_len: 0 };
         for a in self.a.iter_mut() {
             catch(|| {
@@ -140,6 +142,7 @@ pub fn probe_check(inst: &mut Instances, tag: u8) -> Result<(), Fail> {
 // byte-stream / text entry points
 // ------------------------------------------------------------------------------------------------
 pub fn stream_entry_points(data: &[u8], cuts: &[usize]) -> Result<(), String> {
+    let _g = crate::engine::case_guard("stream", data);
     catch(|| {
         // incremental TLS reader + probe on the same reader after reset
         let mut r = huginn_net_tls::tls_client_hello_reader::TlsClientHelloReader::new();
@@ -256,6 +259,7 @@ pub fn stream_probe(junk: &[Vec<u8>]) -> Result<(), Fail> {
 }
 
 pub fn text_entry_points(text: &str) -> Result<(), String> {
+    let _g = crate::engine::case_guard("text", text.as_bytes());
     catch(|| {
         let _ = Database::from_str(text);
         let _ = huginn_net_db::tcp::Signature::from_str(text);
@@ -420,7 +424,7 @@ pub fn check_history(c: &HistCase, st: &mut Stats) -> Result<(), Fail> {
 }
 
 pub fn run(ctx: &Ctx) {
-    ctx.assume("termination is observed through the run's watchdog (a hit is reported as inconclusive, exit 2); panics are caught per case with overflow checks and debug assertions enabled in the harness build of /repo's crates");
+    ctx.assume("termination: every frame / stream / text handed to an entry point is announced to a case registry; when a case has not returned after 30 s, or resident memory passes 6 GB while a case is in flight, the input is saved and re-executed ALONE under RLIMIT_CPU 120 s and RLIMIT_AS 8 GB (normal cost: milliseconds, megabytes): killed or aborted there = violation (CPU time of an isolated run, never wall-clock), passing there = inconclusive (exit 2); the plain no-progress watchdog stays inconclusive; panics are caught per case with overflow checks and debug assertions enabled in the harness build of /repo's crates");
     ctx.assume("probe equivalence compares canonical renderings of every probe result on the used instance with those of a fresh instance (clock injected through hook H1)");
     // (1) every (kind, length, position) encoding of one TCP option
     let bases: Vec<(bool, u8, bool)> = vec![(true, fr::SYN, false), (false, fr::SYN, false), (true, fr::SYN | fr::ACK, false), (true, fr::ACK | fr::PSH, true)];
@@ -456,6 +460,7 @@ pub fn run(ctx: &Ctx) {
                 }
                 st.evals += 1;
                 drive::set_clock(Some(1_000_000 + len as u64));
+                let _g = crate::engine::case_guard("frame", &f);
                 if let Err(e) = catch(|| {
                     let _ = drive::tcp_packet(&f, &mut tracker, false);
                 }) {
@@ -716,6 +721,19 @@ pub fn replay(_ctx: &Ctx, sub: &str, input: &serde_json::Value) -> Result<(), Fa
         let mut inst = Instances::new();
         stateless_frame_entry_points(&f).and_then(|_| inst.feed_all(&f, 1_000_000)).map_err(|e| Fail::new(panic_key(&e), e))?;
         return probe_check(&mut inst, 2);
+    }
+    if sub == "isolated-input" {
+        // an input the hang / runaway-memory detector saved: every entry point of its kind, on fresh instances
+        let bytes = crate::engine::unhex(input["hex"].as_str().unwrap_or(""));
+        return match input["tag"].as_str().unwrap_or("") {
+            "frame" => {
+                let mut inst = Instances::new();
+                stateless_frame_entry_points(&bytes).and_then(|_| inst.feed_all(&bytes, 1_000_000)).map_err(|e| Fail::new(panic_key(&e), e))
+            }
+            "stream" => stream_entry_points(&bytes, &[]).map_err(|e| Fail::new(panic_key(&e), e)),
+            "text" => text_entry_points(&String::from_utf8_lossy(&bytes)).map_err(|e| Fail::new(panic_key(&e), e)),
+            other => Err(fail!("bad-replay", "unknown input kind {other}")),
+        };
     }
     match sub {
         "havoc-histories-then-probe" => check_history(&serde_json::from_value(input["value"].clone()).map_err(|e| fail!("bad-replay", "{e}"))?, &mut st),
